@@ -263,7 +263,13 @@ class OptimizerMixin:
         # Update state mapping and move tensors to correct device
         new_state = {}
         device = optimizable_params[0].device
-        for i, old_param in enumerate(old_state.keys()):
+        # state is keyed by parameter and only exists for parameters that have received a
+        # gradient: pair it with the new parameters by position in the param group
+        old_index = {id(p): i for i, p in enumerate(current_param_group["params"])}
+        if not any(id(p) in old_index for p in old_state):
+            old_index = {id(p): i for i, p in enumerate(old_state.keys())}
+        for old_param in old_state.keys():
+            i = old_index.get(id(old_param), len(optimizable_params))
             if i < len(optimizable_params):
                 new_param = optimizable_params[i]
                 new_state[new_param] = {}
